@@ -51,19 +51,30 @@ theorem hllc_galilean (g rhoL PL rhoR PR : ℝ) (uL uR n vf w : V3 ℝ) :
 
 /-! ## Mirror antisymmetry -/
 
-/-- **hllc_mirror** (`_partial`: one explicit hypothesis `h0`).  Exchanging the two states and
-reversing the normal negates all five flux components, for all `ρ, P ≥ 0` (vacuum on either
-side and vacuum generation included), all velocities, normals and face velocities —
-provided that on the HLLC path a contact estimate that is *exactly* zero comes with outer wave
-estimates that straddle the face (`S_L < 0 < S_R`).  Without `h0` the statement is false for
-the code: see `hllc_mirror_fails_for_fast_symmetric_collision` below. -/
-theorem hllc_mirror_partial (g rhoL PL rhoR PR : ℝ) (uL uR n vf : V3 ℝ)
+/-- **hllc_mirror.**  Exchanging the two states and reversing the normal negates all five flux
+components, for all `ρ, P ≥ 0` (vacuum on either side and vacuum generation included), all
+velocities, normals and face velocities — provided that on the HLLC path the contact estimate is
+non-zero or the outer wave estimates straddle the face (`h0`: `S* ≠ 0 ∨ S_L < 0 < S_R`).  The
+hypothesis excludes exactly the set `S* = 0 ∧ (S_L ≥ 0 ∨ S_R ≤ 0)` (contact estimate exactly at
+rest *outside* the fan of the outer estimates: unordered wave speeds), on which the code is not
+antisymmetric: `hllc_mirror_fails_for_fast_symmetric_collision` below; recorded finding
+`hllc:mirror-at-sstar-zero-unordered-speeds`. -/
+theorem hllc_mirror (g rhoL PL rhoR PR : ℝ) (uL uR n vf : V3 ℝ)
     (hrL : 0 ≤ rhoL) (hPL : 0 ≤ PL) (hrR : 0 ≤ rhoR) (hPR : 0 ≤ PR)
-    (h0 : OnHLLCPath g rhoL uL PL rhoR uR PR n vf →
+    (h0' : OnHLLCPath g rhoL uL PL rhoR uR PR n vf →
+      (hllcWaves g rhoL uL PL rhoR uR PR n vf).Sstar ≠ 0 ∨
+        ((hllcWaves g rhoL uL PL rhoR uR PR n vf).SLmvL + (faceFrame uL uR n vf).vL < 0 ∧
+         0 < (hllcWaves g rhoL uL PL rhoR uR PR n vf).SRmvR + (faceFrame uL uR n vf).vR)) :
+    (hllc g rhoR uR PR rhoL uL PL n.neg vf).NegOf (hllc g rhoL uL PL rhoR uR PR n vf) := by
+  have h0 : OnHLLCPath g rhoL uL PL rhoR uR PR n vf →
       (hllcWaves g rhoL uL PL rhoR uR PR n vf).Sstar = 0 →
         (hllcWaves g rhoL uL PL rhoR uR PR n vf).SLmvL + (faceFrame uL uR n vf).vL < 0 ∧
-        0 < (hllcWaves g rhoL uL PL rhoR uR PR n vf).SRmvR + (faceFrame uL uR n vf).vR) :
-    (hllc g rhoR uR PR rhoL uL PL n.neg vf).NegOf (hllc g rhoL uL PL rhoR uR PR n vf) := by
+        0 < (hllcWaves g rhoL uL PL rhoR uR PR n vf).SRmvR + (faceFrame uL uR n vf).vR := by
+    intro hp hz
+    rcases h0' hp with h | h
+    · exact absurd hz h
+    · exact h
+  clear h0'
   have hG := effGamma_gt_one g
   unfold hllcWaves OnHLLCPath sound at h0
   unfold hllc solveForFlux
@@ -446,7 +457,7 @@ theorem fast_collision_mass_flux (s : ℝ) (hs : s = 1 ∨ s = -1) :
     norm_num
 
 
-/-- **hllc_mirror without `h0` is false**: admissible inputs (positive `ρ, P`, `γ = 2`, unit
+/-- **`hllc_mirror` without `h0` is false**: admissible inputs (positive `ρ, P`, `γ = 2`, unit
 normal, face at rest) for which exchanging the states and reversing the normal does *not* negate
 the flux.  Exactly mirror-symmetric states closing faster than `a·q` (Mach ≳ 1.62…2 depending on
 `γ`) make `S* = 0` and `S_L ≥ 0`; see the finding reported with the check. -/
@@ -477,8 +488,19 @@ theorem sound_2_2_1 : sound 2 2 1 = 1 := by
   unfold sound
   rw [effGamma_eq 2 (by norm_num), lit1]; norm_num
 
+/-- the counterexample lies in the set excluded by `h0` of `hllc_mirror`: it is on the HLLC path
+with contact estimate exactly zero (and `S_L = 2 - 1·2 = 0`, not negative) -/
+example : (hllcWaves 2 2 ⟨2, 0, 0⟩ 1 2 ⟨-2, 0, 0⟩ 1 ⟨1, 0, 0⟩ ⟨0, 0, 0⟩).Sstar = 0 := by
+  have hf : faceFrame (⟨2, 0, 0⟩ : V3 ℝ) ⟨-2, 0, 0⟩ ⟨1, 0, 0⟩ ⟨0, 0, 0⟩
+      = ⟨⟨2, 0, 0⟩, ⟨-2, 0, 0⟩, 2, -2⟩ := by
+    unfold faceFrame
+    simp only [V3.sub, V3.dot, sub_zero, mul_zero, add_zero, mul_one]
+  unfold hllcWaves
+  simp only [hf, sound_2_2_1]
+  exact (waves_mirror_states (effGamma 2) 2 1 1 2 (1.0 / (1 + 0))).2.2
+
 /-- two equal gases at rest (`γ = 2, ρ = 2, P = 1`): on the HLLC path, contact estimate exactly
-zero, outer estimates `∓1` — satisfies `OnHLLCPath` and the hypotheses `h0` of `hllc_mirror_partial`,
+zero, outer estimates `∓1` — satisfies `OnHLLCPath` and the hypothesis `h0` of `hllc_mirror`,
 `hS`/`hSL` of `hllc_contact_at_rest` -/
 example : OnHLLCPath 2 2 ⟨0, 0, 0⟩ 1 2 ⟨0, 0, 0⟩ 1 ⟨1, 0, 0⟩ ⟨0, 0, 0⟩ ∧
     (hllcWaves 2 2 ⟨0, 0, 0⟩ 1 2 ⟨0, 0, 0⟩ 1 ⟨1, 0, 0⟩ ⟨0, 0, 0⟩).Sstar = 0 ∧
